@@ -58,6 +58,13 @@ func (t *Trace) end(line string) {
 	t.mu.Unlock()
 }
 
+// guard turns a panic of the real code into a record of the log (the call then returns zero values)
+func (t *Trace) guard(kind, op string, hid int) {
+	if r := recover(); r != nil {
+		t.end(fmt.Sprintf(`[k |-> "panic", kind |-> %q, op |-> %q, h |-> %d, msg |-> %s]`, kind, op, hid, q(fmt.Sprint(r))))
+	}
+}
+
 func (t *Trace) newHandle() int {
 	t.mu.Lock()
 	defer t.mu.Unlock()
@@ -185,6 +192,7 @@ func (f *FS) Open(name string) (hackpadfs.File, error) {
 
 func (f *FS) OpenFile(name string, flag int, perm hackpadfs.FileMode) (hackpadfs.File, error) {
 	f.t.begin()
+	defer f.t.guard("fs", "openfile", 0)
 	file, err := hackpadfs.OpenFile(f.in, name, flag, perm)
 	hid := 0
 	var out hackpadfs.File
@@ -201,6 +209,7 @@ func (f *FS) OpenFile(name string, flag int, perm hackpadfs.FileMode) (hackpadfs
 
 func (f *FS) Mkdir(name string, perm hackpadfs.FileMode) error {
 	f.t.begin()
+	defer f.t.guard("fs", "mkdir", 0)
 	err := hackpadfs.Mkdir(f.in, name, perm)
 	f.t.fsEvent("mkdir", name, "", noFlag, perm, nil, err, "", 0)
 	return err
@@ -208,6 +217,7 @@ func (f *FS) Mkdir(name string, perm hackpadfs.FileMode) error {
 
 func (f *FS) MkdirAll(name string, perm hackpadfs.FileMode) error {
 	f.t.begin()
+	defer f.t.guard("fs", "mkdirall", 0)
 	err := hackpadfs.MkdirAll(f.in, name, perm)
 	f.t.fsEvent("mkdirall", name, "", noFlag, perm, nil, err, "", 0)
 	return err
@@ -215,6 +225,7 @@ func (f *FS) MkdirAll(name string, perm hackpadfs.FileMode) error {
 
 func (f *FS) Remove(name string) error {
 	f.t.begin()
+	defer f.t.guard("fs", "remove", 0)
 	err := hackpadfs.Remove(f.in, name)
 	f.t.fsEvent("remove", name, "", noFlag, 0, nil, err, "", 0)
 	return err
@@ -222,6 +233,7 @@ func (f *FS) Remove(name string) error {
 
 func (f *FS) RemoveAll(name string) error {
 	f.t.begin()
+	defer f.t.guard("fs", "removeall", 0)
 	err := hackpadfs.RemoveAll(f.in, name)
 	f.t.fsEvent("removeall", name, "", noFlag, 0, nil, err, "", 0)
 	return err
@@ -229,6 +241,7 @@ func (f *FS) RemoveAll(name string) error {
 
 func (f *FS) Rename(oldname, newname string) error {
 	f.t.begin()
+	defer f.t.guard("fs", "rename", 0)
 	err := hackpadfs.Rename(f.in, oldname, newname)
 	f.t.fsEvent("rename", oldname, newname, noFlag, 0, nil, err, "", 0)
 	return err
@@ -236,6 +249,7 @@ func (f *FS) Rename(oldname, newname string) error {
 
 func (f *FS) Stat(name string) (hackpadfs.FileInfo, error) {
 	f.t.begin()
+	defer f.t.guard("fs", "stat", 0)
 	info, err := hackpadfs.Stat(f.in, name)
 	out := ""
 	if err == nil {
@@ -247,6 +261,7 @@ func (f *FS) Stat(name string) (hackpadfs.FileInfo, error) {
 
 func (f *FS) Chmod(name string, mode hackpadfs.FileMode) error {
 	f.t.begin()
+	defer f.t.guard("fs", "chmod", 0)
 	err := hackpadfs.Chmod(f.in, name, mode)
 	f.t.fsEvent("chmod", name, "", noFlag, mode, nil, err, "", 0)
 	return err
@@ -254,6 +269,7 @@ func (f *FS) Chmod(name string, mode hackpadfs.FileMode) error {
 
 func (f *FS) Chtimes(name string, atime, mtime time.Time) error {
 	f.t.begin()
+	defer f.t.guard("fs", "chtimes", 0)
 	err := hackpadfs.Chtimes(f.in, name, atime, mtime)
 	f.t.fsEvent("chtimes", name, "", noFlag, 0, nil, err, "", 0)
 	return err
@@ -261,6 +277,7 @@ func (f *FS) Chtimes(name string, atime, mtime time.Time) error {
 
 func (f *FS) ReadDir(name string) ([]hackpadfs.DirEntry, error) {
 	f.t.begin()
+	defer f.t.guard("fs", "readdir", 0)
 	ents, err := hackpadfs.ReadDir(f.in, name)
 	out := ""
 	if err == nil {
@@ -272,6 +289,7 @@ func (f *FS) ReadDir(name string) ([]hackpadfs.DirEntry, error) {
 
 func (f *FS) ReadFile(name string) ([]byte, error) {
 	f.t.begin()
+	defer f.t.guard("fs", "readfile", 0)
 	b, err := hackpadfs.ReadFile(f.in, name)
 	out := ""
 	if err == nil {
@@ -283,6 +301,7 @@ func (f *FS) ReadFile(name string) ([]byte, error) {
 
 func (f *FS) WriteFile(name string, data []byte, perm hackpadfs.FileMode) error {
 	f.t.begin()
+	defer f.t.guard("fs", "writefile", 0)
 	err := hackpadfs.WriteFullFile(f.in, name, data, perm)
 	f.t.fsEvent("writefile", name, "", noFlag, perm, data, err, "", 0)
 	return err
@@ -348,6 +367,7 @@ func (f *File) ev(e hEv) {
 
 func (f *File) Read(p []byte) (int, error) {
 	f.t.begin()
+	defer f.t.guard("h", "read", f.id)
 	n, err := f.in.Read(p)
 	f.ev(hEv{op: "read", n: int64(len(p)), err: err, cnt: int64(n), rb: append([]byte(nil), p[:clamp(n)]...)})
 	return n, err
@@ -355,6 +375,7 @@ func (f *File) Read(p []byte) (int, error) {
 
 func (f *File) ReadAt(p []byte, off int64) (int, error) {
 	f.t.begin()
+	defer f.t.guard("h", "readat", f.id)
 	n, err := hackpadfs.ReadAtFile(f.in, p, off)
 	f.ev(hEv{op: "readat", n: int64(len(p)), off: off, err: err, cnt: int64(n), rb: append([]byte(nil), p[:clamp(n)]...)})
 	return n, err
@@ -362,6 +383,7 @@ func (f *File) ReadAt(p []byte, off int64) (int, error) {
 
 func (f *File) Write(p []byte) (int, error) {
 	f.t.begin()
+	defer f.t.guard("h", "write", f.id)
 	n, err := hackpadfs.WriteFile(f.in, p)
 	f.ev(hEv{op: "write", bs: p, err: err, cnt: int64(n)})
 	return n, err
@@ -369,6 +391,7 @@ func (f *File) Write(p []byte) (int, error) {
 
 func (f *File) WriteAt(p []byte, off int64) (int, error) {
 	f.t.begin()
+	defer f.t.guard("h", "writeat", f.id)
 	n, err := hackpadfs.WriteAtFile(f.in, p, off)
 	f.ev(hEv{op: "writeat", bs: p, off: off, err: err, cnt: int64(n)})
 	return n, err
@@ -376,6 +399,7 @@ func (f *File) WriteAt(p []byte, off int64) (int, error) {
 
 func (f *File) Seek(offset int64, whence int) (int64, error) {
 	f.t.begin()
+	defer f.t.guard("h", "seek", f.id)
 	n, err := hackpadfs.SeekFile(f.in, offset, whence)
 	f.ev(hEv{op: "seek", off: offset, wh: int64(whence), err: err, ret: n})
 	return n, err
@@ -383,6 +407,7 @@ func (f *File) Seek(offset int64, whence int) (int64, error) {
 
 func (f *File) Truncate(size int64) error {
 	f.t.begin()
+	defer f.t.guard("h", "truncate", f.id)
 	err := hackpadfs.TruncateFile(f.in, size)
 	f.ev(hEv{op: "truncate", off: size, err: err})
 	return err
@@ -390,6 +415,7 @@ func (f *File) Truncate(size int64) error {
 
 func (f *File) Stat() (hackpadfs.FileInfo, error) {
 	f.t.begin()
+	defer f.t.guard("h", "stat", f.id)
 	info, err := f.in.Stat()
 	e := hEv{op: "stat", err: err}
 	if err == nil {
@@ -401,6 +427,7 @@ func (f *File) Stat() (hackpadfs.FileInfo, error) {
 
 func (f *File) Chmod(mode hackpadfs.FileMode) error {
 	f.t.begin()
+	defer f.t.guard("h", "chmod", f.id)
 	err := hackpadfs.ChmodFile(f.in, mode)
 	f.ev(hEv{op: "chmod", err: err, perm: int(mode.Perm())})
 	return err
@@ -408,6 +435,7 @@ func (f *File) Chmod(mode hackpadfs.FileMode) error {
 
 func (f *File) Chtimes(atime, mtime time.Time) error {
 	f.t.begin()
+	defer f.t.guard("h", "chtimes", f.id)
 	err := hackpadfs.ChtimesFile(f.in, atime, mtime)
 	f.ev(hEv{op: "chtimes", err: err})
 	return err
@@ -415,6 +443,7 @@ func (f *File) Chtimes(atime, mtime time.Time) error {
 
 func (f *File) Sync() error {
 	f.t.begin()
+	defer f.t.guard("h", "sync", f.id)
 	err := hackpadfs.SyncFile(f.in)
 	f.ev(hEv{op: "sync", err: err})
 	return err
@@ -422,6 +451,7 @@ func (f *File) Sync() error {
 
 func (f *File) Close() error {
 	f.t.begin()
+	defer f.t.guard("h", "close", f.id)
 	err := f.in.Close()
 	f.ev(hEv{op: "close", err: err})
 	return err
@@ -429,6 +459,7 @@ func (f *File) Close() error {
 
 func (f *File) ReadDir(n int) ([]hackpadfs.DirEntry, error) {
 	f.t.begin()
+	defer f.t.guard("h", "readdir", f.id)
 	ents, err := hackpadfs.ReadDirFile(f.in, n)
 	f.ev(hEv{op: "readdir", n: int64(n), err: err, cnt: int64(len(ents)), ls: listTLA(ents)})
 	return ents, err
